@@ -13,7 +13,12 @@ import (
 	"safecheck/relang"
 )
 
-func init() { register("C16", "other", runC16) }
+func init() {
+	register("C16", "other", func(p *Program, r *Report) {
+		runC16(p, r)
+		checkBoundsProven(p, r, "C16.B1", "stylesheet.go")
+	})
+}
 
 // safeSelectorDFA is the hand-built automaton SAFE_SEL of DESIGN A.8: the CSS
 // Syntax 3 tokenizer (§4.3, after §3.3 preprocessing) restricted to what a
@@ -338,6 +343,7 @@ func runC16(p *Program, r *Report) {
 			r.Check(len(got) == 2 && got[')'] == '(' && got[']'] == '[', "C16.R1", tc, p.Pos(lit.Pos), "bracket table pairs ) with ( and ] with [", fmt.Sprintf("bracket table is %v", got))
 		}
 		checkStackDiscipline(p, r, "C16.R1", fns)
+		checkScanVisitsEveryByte(p, r, "C16.R1", fns)
 	}
 	// ---- R2 language ---------------------------------------------------------
 	per, ok := splitByParam(site.Cond)
@@ -665,5 +671,71 @@ func checkStackDiscipline(p *Program, r *Report, rule string, fns []*ssa.Functio
 	}
 	if n == 0 {
 		r.OK(rule, "safehtml.hasBalancedBrackets#stack-discipline", "", "no stack of a recognised form (list or appended slice) in the bracket matcher: its algorithm stays in the trusted part")
+	}
+}
+
+// checkScanVisitsEveryByte: the loop of the bracket matcher that walks over the selector is left only where it
+// ends (its header) or by returning a verdict: a break out of it would accept what follows a matched bracket
+// without looking at it ("a(b)c(" counts as balanced).
+func checkScanVisitsEveryByte(p *Program, r *Report, rule string, fns []*ssa.Function) {
+	for _, f := range fns {
+		short := strings.TrimPrefix(fnName(f), modulePath+".")
+		hs := loopHeaders(f)
+		for _, h := range hs {
+			outer := true
+			for _, h2 := range hs {
+				if h2 != h && loopBlocks(h2)[h] {
+					outer = false
+				}
+			}
+			if !outer {
+				continue
+			}
+			in := loopBlocks(h)
+			// the loop that walks over the selector: it reads bytes of a string parameter
+			scans := false
+			for b := range in {
+				for _, ins := range b.Instrs {
+					var x ssa.Value
+					switch lk := ins.(type) {
+					case *ssa.Lookup:
+						x = lk.X
+					case *ssa.Index:
+						x = lk.X
+					}
+					if prm, ok := x.(*ssa.Parameter); ok && isStringish(prm.Type()) {
+						scans = true
+					}
+				}
+			}
+			if !scans {
+				continue
+			}
+			bad := ""
+			for b := range in {
+				if b == h {
+					continue
+				}
+				for _, su := range b.Succs {
+					if in[su] {
+						continue
+					}
+					if _, isRet := su.Instrs[len(su.Instrs)-1].(*ssa.Return); isRet && len(su.Instrs) <= 2 {
+						if ret := su.Instrs[len(su.Instrs)-1].(*ssa.Return); len(ret.Results) == 1 {
+							if _, isK := ret.Results[0].(*ssa.Const); isK {
+								continue // a verdict
+							}
+						}
+					}
+					if bad == "" && len(b.Instrs) > 0 {
+						bad = p.Pos(b.Instrs[len(b.Instrs)-1].Pos())
+						if bad == "-" || bad == "" {
+							bad = p.Pos(f.Pos())
+						}
+					}
+				}
+			}
+			r.Check(bad == "", rule, short+"#scan-visits-every-byte", p.Pos(f.Pos()), "the loop over the selector is left only at its end or with a verdict", "the loop over the selector can be left early ("+bad+") without a verdict: the brackets after that point are never matched, so a selector such as a(b)c( counts as balanced")
+		}
 	}
 }
